@@ -36,6 +36,9 @@ static struct thread_data g_td;                       /* the one thread object t
 /* ================================================= U2 ================================================= */
 
 
+/* the other overload (a forwarding implementation of this one calls it) */
+static bool restore_state_2(struct thread_data *self, thread_schedule_state new_state, thread_restart_state state_ex, struct thread_state old_state)
+//@LIFT restore_state_2_body
 //@FUNC
 bool restore_state_1(struct thread_data *self, struct thread_state new_state, struct thread_state old_state)
 __CPROVER_requires(lin_count == 0 && g_loads == 0 && g_cas == 0 && WF(self->current_state_) && A_TAG1(self->current_state_))
